@@ -1015,7 +1015,7 @@ func runCheck(o *Options) (int, *Evidence) {
 				brokenOnly = false
 			}
 		}
-		if brokenOnly {
+		if brokenOnly && ob.Kind != "ownership" {
 			// the clause itself cannot be evaluated any more (it names something that is gone), or
 			// every failing path runs through a loop with such an invariant: a contract out of date
 			// proves nothing and refutes nothing (a failing input of the real code can still decide)
